@@ -131,6 +131,12 @@ def run(ctx):
             ctx.violation("Field.__call__:ignores-active-dof", what + " -- %s: %s" % (pick["id"], pick["detail"][:200]), dict(rep(pick), theorem="field_call_uses_active_dof / form_uv_eq_UV_vector"), found_input=True)
         else:
             ctx.violation("Field.__call__:ignores-active-dof", what, {"theorem": "field_call_uses_active_dof", "log": rf.log[-1500:]}, found_input=False)
+    star = [c for c in other if c["kind"].endswith("scalar-star-product")]
+    other = [c for c in other if c not in star]
+    if star:
+        ctx.violation("BiLinearForm:scalar-star-product", "BiLinearForm(lambda u, v: u * v) on a scalar field (what the built-ins express as UV) fails: a scalar Field's value is a 1-vector "
+                      "(1, nPg, 1), so the integrated values are (Ne, 1) and `data[:, i, j] = values_e` cannot store them -- %s: %s" % (star[0]["id"], star[0]["detail"][:160]),
+                      rep(star[0]), found_input=True)
     seen = set()
     for c in other:
         key = "corr:%s:%s" % (c["id"], c["kind"])
